@@ -5,6 +5,7 @@ import Proofs.C05Dispatch
 import Proofs.C05Value
 import Proofs.C05Seq
 import Proofs.C05Event
+import Proofs.C05ConnSetup
 /-!
 # C05 — no bytes from the network can crash the application
 
@@ -465,5 +466,40 @@ example : (match run ⟨false, false, false⟩ [[], [⟨.ctl, C05Event.evStatus,
 example : run ⟨false, false, false⟩ [[⟨.hsStartup, C05Event.evSchema, 1⟩]] = .connectError := by decide
 
 end events
+
+/-! ## 8. connection set-up as a sequence of answers (handshake, then USE keyspace)
+
+Model/ConnSetup.lean: OPTIONS -> STARTUP -> AUTH_RESPONSE.. (`Dispatch.hsStep`) -> `USE "ks"` of a pool connection,
+every request answered with ANY of the 18 kinds; compared with a real session in child processes (op `hs`:
+the requests the peer saw, and whether the session came up). Lemmas in Proofs/C05ConnSetup.lean. -/
+section connsetup
+open ConnSetup
+
+/-- FULL: for every authenticator behaviour, with or without a session keyspace, and EVERY script of answers,
+    setting up the connection never panics (it runs on a driver goroutine: startupCoordinator / hostConnPool.fill). -/
+theorem C05_connsetup_total (cfg : Dispatch.AuthCfg) (useKs : Bool) (script : List Dispatch.FrameKind) :
+    (run cfg useKs script).1.isDead = false :=
+  C05ConnSetup.safe_not_dead Dispatch.dispatch _
+    (C05ConnSetup.drive_safe _ cfg useKs (fun k => C05Dispatch.C05_dispatch_total _ k)
+      (fun k => C05Dispatch.C05_dispatch_total _ k) (fun k => C05Dispatch.C05_dispatch_total _ k)
+      (Or.inr fun k => C05Dispatch.C05_dispatch_total _ k) (fun k => C05Dispatch.C05_dispatch_total _ k)
+      _ _ _ _ trivial)
+
+/-- FULL: ... and it always ENDS, with the connection up or an error to the caller: whatever the script, once the
+    peer answers like a server again the set-up is over within four requests (no state waits for ever). -/
+theorem C05_connsetup_ends (cfg : Dispatch.AuthCfg) (useKs : Bool) (script : List Dispatch.FrameKind) :
+    (run cfg useKs script).1 = .up ∨ (run cfg useKs script).1 = .failed :=
+  C05ConnSetup.settled_cases _
+    (C05ConnSetup.drive_running cfg useKs _ _ _ _ trivial)
+    (C05ConnSetup.drive_ends cfg useKs script 0 _ _ trivial)
+    (C05_connsetup_total cfg useKs script)
+
+/-- non-vacuity: PasswordAuthenticator, keyspace: AUTHENTICATE, AUTH_SUCCESS, then the USE answered with RESULT/Void
+    fails after four requests; answered by the server it comes up; an AUTH_CHALLENGE to the nil challenger fails -/
+example : run Dispatch.passwordAuth true [.supported, .authenticate, .authSuccess, .resultVoid] = (.failed, ["O", "S", "A", "Q"]) := by decide
+example : run Dispatch.passwordAuth true [.supported, .authenticate] = (.up, ["O", "S", "A", "Q"]) := by decide
+example : run Dispatch.passwordAuth false [.supported, .authenticate, .authChallenge] = (.failed, ["O", "S", "A"]) := by decide
+
+end connsetup
 
 end C05
